@@ -51,6 +51,26 @@ def gen_cases(rng, tier, scale):
                     or (o.startswith('rt ') and o.split(' ')[2] == x(t)) or o.startswith('rthr ')]
         cases.append({'line': f'e{k} ' + ' ; '.join(ops + seq), 'kind': 'entries', 'tpl': t, 'nsetup': len(parts) + 2, 'main_idx': main_idx,
                       'pi': 'pi 1' in pre, 'tags': ['entries']})
+    # configuration-sensitive templates through every entry point under every flag combination: an entry point
+    # that does not pass a registry setting along shows here
+    SENS = ['A\n  {{> p1}}\nZ', '{{#each l}}\n\t{{> p1}}\n{{/each}}', '{{v}}|{{{v}}}|{{zz}}', '{{#with o}}  {{> p1}}{{/with}}\n{{lookup o "zz"}}',
+            '{{> (lookup this "pn")}}\n {{> p1 v="<x>"}}\n']
+    D2 = {'v': '<b a="1">', 'l': [1, 2], 'o': {'v': "it's"}, 'pn': 'p1'}
+    k2 = 0
+    for t in SENS:
+        for pi in (0, 1):
+            for strict in (0, 1):
+                for esc in (0, 1):
+                    P1 = x('L1 {{v}}\nL2\n')
+                    ops = [f'pi {pi}', f'strict {strict}', f'esc {esc}', f'regs {x("p1")} {P1}', f'regs {x("main")} {x(t)}',
+                           f'regs {x("other")} {x("o")}']
+                    Dj = jtok(D2)
+                    seq = [f'r {e} {x("main")} {Dj} -1' for e in (0, 1, 2, 3)] + [f'rt {e} {x(t)} {Dj} -1' for e in (4, 5, 6, 7)]
+                    obs_ops = [o for o in ops + seq if o.split(' ')[0] in ('regs', 'r', 'rt')]
+                    main_idx = [i for i, o in enumerate(obs_ops) if o.startswith('r ') or o.startswith('rt ')]
+                    cases.append({'line': f'c{k2} ' + ' ; '.join(ops + seq), 'kind': 'entries', 'tpl': t, 'nsetup': 3, 'main_idx': main_idx,
+                                  'pi': bool(pi), 'tags': ['config']})
+                    k2 += 1
     # F12: which error is reported when several hash subexpressions fail varies between identical calls
     cases.append({'line': 'f12 probes ; ' + ' ; '.join([f'rt 4 {x("{{dump a=(n1) b=(n2) c=(n3) d=(n4)}}")} {{}} -1'] * 12),
                   'kind': 'f12', 'tpl': '', 'tags': ['F12']})
